@@ -99,6 +99,7 @@ func runC03(c *core.Ctx) {
 	c.Rule("R3", "no helper named by the property writes through its slice/map arguments", 40)
 	c.Rule("R4", "every integer division or remainder in the helpers has a divisor proven non-zero under its dominating guards", 1)
 	c.Rule("R6", "window helpers: on every path, Drop/DropLast/Take/TakeLast return exactly the window of the input their definition prescribes for the count region the path lies in (count >= len; 1 <= count < len; for Drop/DropLast also count <= 0)", 4)
+	c.Rule("R7", "Merge gives the second map precedence: its entries are written into the result unconditionally (not 'only if absent') and never before an entry of the first map on the same path", 2)
 	c.Rule("R5", "an input map is never read with a plain index expression for a key that may be absent (missing key ≠ stored zero value)", 1)
 	ei := core.ComputeEffects(p)
 	helpers := c03helpers(p)
@@ -302,6 +303,7 @@ func runC03(c *core.Ctx) {
 	c.Check(true, "R4", "scan", "fp.go", fmt.Sprintf("%d integer divisions/remainders in %d functions, all with a non-zero divisor", nDiv, len(subjects)), "")
 	c.Check(true, "R5", "scan", "fp.go", fmt.Sprintf("%d plain lookups in input maps in %d functions, all with a present key", nLk, len(subjects)), "")
 	c03windows(c)
+	c03mergePrecedence(c)
 	// R2
 	if f := p.Func(p.Fpgo, "Range"); f == nil {
 		c.Unknown("R2", "Range", "-", "function not found")
@@ -756,4 +758,101 @@ func c03lin(l core.Lin) string {
 		s += fmt.Sprintf("%+d", l.K)
 	}
 	return strings.TrimPrefix(s, "+")
+}
+
+
+// ---------------------------------------------------------------- R7 Merge precedence
+
+// c03mergePrecedence: Merge(map1, map2) and its interface{} twin. The entries of map2 must end up in the result with
+// map2's value for keys both maps hold: every write of a map2 entry into the result is unconditional with respect to the
+// result's content, and no write of a map1 entry can follow it.
+func c03mergePrecedence(c *core.Ctx) {
+	p := c.P
+	for _, name := range []string{"Merge", "MergeForInterface"} {
+		f := p.Func(p.Fpgo, name)
+		if f == nil || len(f.Params) != 2 {
+			c.Unknown("R7", name, "-", "function not found")
+			continue
+		}
+		type upd struct {
+			fd      core.Found
+			from    int  // 0 = map1, 1 = map2
+			guarded bool // written only where the key is absent from the result
+		}
+		var upds []upd
+		bad := ""
+		for _, fd := range core.DeepFind(p, f, func(ins ssa.Instruction) bool {
+			_, ok := ins.(*ssa.MapUpdate)
+			return ok
+		}) {
+			mu := fd.Ins.(*ssa.MapUpdate)
+			// the ranged map the key comes from
+			ex, isE := core.Resolve(mu.Key).(*ssa.Extract)
+			if !isE {
+				continue
+			}
+			nx, isN := ex.Tuple.(*ssa.Next)
+			if !isN {
+				continue
+			}
+			rg, isR := nx.Iter.(*ssa.Range)
+			if !isR {
+				continue
+			}
+			src, st := core.Up(rg.X, fd.Stack)
+			from := -1
+			if len(st) == 0 {
+				for i, prm := range f.Params {
+					if core.Resolve(src) == ssa.Value(prm) {
+						from = i
+					}
+				}
+			}
+			if from < 0 {
+				continue
+			}
+			guarded := false
+			for _, cnd := range core.EdgeFacts(mu.Block()) {
+				n := core.Normalize(cnd)
+				if e2, isE2 := n.V.(*ssa.Extract); isE2 && e2.Index == 1 {
+					if lk, isLk := e2.Tuple.(*ssa.Lookup); isLk && lk.CommaOk && core.Resolve(lk.X) == core.Resolve(mu.Map) && !n.True {
+						guarded = true
+					}
+				}
+			}
+			upds = append(upds, upd{fd, from, guarded})
+		}
+		n1, n2 := 0, 0
+		rootOf := func(fd core.Found) ssa.Instruction {
+			if len(fd.Stack) > 0 {
+				return fd.Stack[0]
+			}
+			return fd.Ins
+		}
+		for _, u := range upds {
+			if u.from == 0 {
+				n1++
+			} else {
+				n2++
+			}
+		}
+		for _, a := range upds {
+			for _, b := range upds {
+				if rootOf(a.fd) == rootOf(b.fd) || !core.Reaches(rootOf(a.fd), rootOf(b.fd)) {
+					continue
+				}
+				// a runs before b on some path
+				if a.from == 1 && b.from == 0 && !b.guarded {
+					bad = "an entry of the first map can be written, unconditionally, after the entries of the second (" + p.InstrPos(rootOf(b.fd)) + " after " + p.InstrPos(rootOf(a.fd)) + "): the first map's value overrides the second's"
+				}
+				if a.from == 0 && b.from == 1 && b.guarded {
+					bad = "after the first map's entries an entry of the second map is written only where the key is still absent (" + p.InstrPos(b.fd.Ins) + "): for a key both maps hold, the first map's value survives"
+				}
+			}
+		}
+		if n1 == 0 || n2 == 0 {
+			bad = "the copies of the two maps into the result were not found"
+		}
+		c.Check(bad == "", "R7", name, p.Pos(f.Pos()), fmt.Sprintf("%d writes of first-map entries, then %d unconditional writes of second-map entries", n1, n2), bad)
+	}
 }
